@@ -2,6 +2,9 @@
 Export of textX based models and metamodels to dot file.
 """
 
+import os
+import tempfile
+from contextlib import contextmanager, suppress
 from dataclasses import dataclass
 from typing import Dict, Iterable, List, Union
 from typing import Optional as Opt
@@ -298,8 +301,35 @@ set namespaceSeparator .
         return f"{base.fqn} <|-- {special.fqn}\n"
 
 
+@contextmanager
+def _atomic_write(file_name):
+    """
+    Opens a temporary file next to `file_name` for writing. The file replaces
+    `file_name` only after the block has finished without an exception; if
+    the block fails, the temporary file is removed and `file_name` is left as
+    it was (in particular, no partially written output is left behind).
+    """
+    directory = os.path.dirname(os.path.abspath(file_name))
+    f = tempfile.NamedTemporaryFile(
+        "w",
+        encoding="utf-8",
+        dir=directory,
+        prefix=os.path.basename(file_name) + ".",
+        suffix=".tmp",
+        delete=False,
+    )
+    try:
+        with f:
+            yield f
+        os.replace(f.name, file_name)
+    except:  # noqa
+        with suppress(OSError):
+            os.remove(f.name)
+        raise
+
+
 def metamodel_export(metamodel, file_name, renderer=None):
-    with open(file_name, "w", encoding="utf-8") as f:
+    with _atomic_write(file_name) as f:
         metamodel_export_tofile(metamodel, f, renderer)
 
 
@@ -406,7 +436,7 @@ def model_export(model, file_name, repo=None):
     Returns:
         Nothing
     """
-    with open(file_name, "w", encoding="utf-8") as f:
+    with _atomic_write(file_name) as f:
         model_export_to_file(f, model, repo)
 
 
